@@ -2,6 +2,7 @@ import Gp.Go.Basic
 import Gp.Model.SBuf
 import Gp.Model.Checksum
 import Gp.Gen.Ip4
+import Gp.Model.Flow
 /-
   Executable model of layers/ip4.go (engine `lip4`): IPv4.DecodeFromBytes, SerializeTo
   (+ getIPv4OptionSize, flagsfrags, AddressTo4/checkIPv4Address), NextLayerType, decodeIPv4,
@@ -246,18 +247,12 @@ def decodeIPv4Pkt (data foreign : Bytes) : Res PktStep := do
 
 /-! ## Flow, checksum verification -/
 
-/-- gopacket.Flow restricted to what is observable: type tag and the two address byte strings. -/
-structure Flow where
-  src : Bytes
-  dst : Bytes
-  deriving Repr, DecidableEq
+/-- layers.EndpointIPv4 = gopacket.RegisterEndpointType(1, …) (layers/endpoints.go). -/
+def endpointIPv4 : Int := 1
 
-def Flow.reverse (f : Flow) : Flow := ⟨f.dst, f.src⟩
-
-/-- IPv4.NetworkFlow = gopacket.NewFlow(EndpointIPv4, SrcIP, DstIP): panics above 16 bytes. -/
-def networkFlow (l : Layer) : Res Flow :=
-  if l.srcIP.length > 16 ∨ l.dstIP.length > 16 then .panic .explicit
-  else .ok ⟨l.srcIP, l.dstIP⟩
+/-- IPv4.NetworkFlow = gopacket.NewFlow(EndpointIPv4, SrcIP, DstIP), over the shared model of
+    flows.go (panics above 16 address bytes). -/
+def networkFlow (l : Layer) : Res Gp.Flow.Flow := Gp.Flow.newFlow endpointIPv4 l.srcIP l.dstIP
 
 /-- IPv4.VerifyChecksum: (Valid, Correct, Actual). -/
 def verifyChecksum (l : Layer) : Bool × Nat × Nat :=
